@@ -79,7 +79,7 @@ fn nontrivial(op: Op, a: i64, b: i64) -> bool {
     }
 }
 
-const FORMS: [&str; 8] = ["plain", "var", "elem", "prop", "index", "shadow", "param", "loopvar"];
+const FORMS: [&str; 10] = ["plain", "var", "elem", "prop", "index", "shadow", "param", "loopvar", "shadow_read", "local_read"];
 
 // Statements that compute `a op b` in the given form and print the result.
 fn form_src(form: &str, op: Op, a: i64, b: i64) -> String {
@@ -93,6 +93,11 @@ fn form_src(form: &str, op: Op, a: i64, b: i64) -> String {
         // name: block-local, parameter, loop variable. `x op= y` is `x = x op y`
         // on the innermost x; the outer one keeps its value.
         "shadow" => format!("x := 7\n{{\n    x := {sa}\n    x {o}= {sb}\n    print(x)\n}}\nif x != 7 {{\n    print(\"outer changed\")\n}}"),
+        // The outer variable is read immediately before the shadow is declared
+        // (whatever the interpreter remembers about that lookup must not
+        // outlive the declaration), the shadow immediately afterwards.
+        "shadow_read" => format!("x := 7\n{{\n    y := 0 + x\n    x := {sa}\n    x {o}= {sb}\n    print(x)\n    x = x\n}}\nif x != 7 {{\n    print(\"outer changed\")\n}}"),
+        "local_read" => format!("x := 7\nfn g(k) {{\n    room := k + x\n    x := {sa}\n    x {o}= {sb}\n    return x\n}}\nprint(g(0))\nif x != 7 {{\n    print(\"outer changed\")\n}}"),
         "param" => format!("fn g(x) {{\n    x {o}= {sb}\n    return x\n}}\nx := 7\nprint(g({sa}))\nif x != 7 {{\n    print(\"outer changed\")\n}}"),
         "loopvar" => format!("x := 7\nfor [_, x] in [{sa}] {{\n    x {o}= {sb}\n    print(x)\n}}\nif x != 7 {{\n    print(\"outer changed\")\n}}"),
         _ => format!("o := {{\"k\": {sa}}}\no[\"k\"] {o}= {sb}\nprint(o[\"k\"])"),
@@ -383,7 +388,7 @@ pub fn run(ctx: &Ctx) {
     for _ in 0..n {
         rp.push(random_pair(&mut t));
     }
-    let forms: &[&str] = if ctx.tier == Tier::Quick { &["plain", "elem", "shadow"] } else { &FORMS };
+    let forms: &[&str] = if ctx.tier == Tier::Quick { &["plain", "elem", "shadow", "shadow_read", "local_read"] } else { &FORMS };
     arith_cases(ctx, &rp, forms, "random");
     compare_cases(ctx, &rp);
 }
